@@ -35,15 +35,17 @@ Definition lookup_tbl (tbl : list (Z * Z)) (x : F) : F :=
   | None => of_bits 9221120237041090561      (* a NaN: can never compare equal to a real result *)
   end.
 
-Definition FOps (ln_tbl exp_tbl : list (Z * Z)) : Ops F := {|
+(* binary64 operations with ARBITRARY libm oracles ln_f, exp_f *)
+Definition FOpsG (ln_f exp_f : F -> F) : Ops F := {|
   o_lit := of_bits;
   o_add := fadd; o_sub := fsub; o_mul := fmul; o_div := fdiv; o_fma := ffma;
   o_neg := fneg; o_max := fmax;
-  o_ln := lookup_tbl ln_tbl; o_exp := lookup_tbl exp_tbl;
+  o_ln := ln_f; o_exp := exp_f;
   o_lt := flt; o_le := fle;
   o_absdiffeq := f_absdiffeq; o_releq := f_releq;
   o_default := fnan
 |}.
+Definition FOps (ln_tbl exp_tbl : list (Z * Z)) : Ops F := FOpsG (lookup_tbl ln_tbl) (lookup_tbl exp_tbl).
 
 Definition FOps0 : Ops F := FOps [] [].
 
